@@ -162,6 +162,11 @@ fn mode_hist(rng: &mut Rng, n_cases: u64, max_len: u64, probes: bool) {
                                 if ttl < lo || ttl > hi {
                                     viol.push(Viol { prop: "C07", step: i, what: format!("store lifetime {ttl}ns outside [E, 2*B*E] = [{lo}, {hi}]") });
                                 }
+                                // the state influences decisions until the ideal bucket is full again
+                                let needed = (e * (b as i128) - buckets[&key].lvl) as u128;
+                                if ideal && ttl < needed {
+                                    viol.push(Viol { prop: "C07", step: i, what: format!("store lifetime {ttl}ns is shorter than the {needed}ns during which this state still influences decisions (time to regain the full burst)") });
+                                }
                             }
                             None => viol.push(Viol { prop: "C07", step: i, what: "admitted request wrote nothing to the store".into() }),
                         }
